@@ -299,7 +299,6 @@ class StreamIO:
         """
         return await self.reader.readexactly(count)
 
-    @with_timeout("write_timeout")
     async def write(self, data):
         """
         :py:func:`asyncio.coroutine`
@@ -311,13 +310,39 @@ class StreamIO:
         :type data: :py:class:`bytes`
         """
         self.writer.write(data)
+        try:
+            await self._drain()
+        except asyncio.TimeoutError:
+            # the peer takes nothing: a closing transport would wait for it
+            # (and keep the socket) for ever
+            self.abort()
+            raise
+
+    @with_timeout("write_timeout")
+    async def _drain(self):
         await self.writer.drain()
 
     def close(self):
         """
-        Close connection.
+        Close connection. Buffered data is sent first.
         """
         self.writer.close()
+
+    def abort(self):
+        """
+        Close connection at once. Buffered data is dropped.
+        """
+        self.writer.transport.abort()
+
+    def give_up(self):
+        """
+        Close connection, but do not wait for a peer which has not taken
+        the buffered data.
+        """
+        if self.writer.transport.get_write_buffer_size():
+            self.abort()
+        else:
+            self.close()
 
 
 class Throttle:
@@ -556,8 +581,11 @@ class ThrottleStreamIO(StreamIO):
     async def __aenter__(self):
         return self
 
-    async def __aexit__(self, *args):
-        self.close()
+    async def __aexit__(self, exc_type, exc, tb):
+        if exc_type is None:
+            self.close()
+        else:
+            self.give_up()
 
     def iter_by_line(self):
         """
